@@ -18,7 +18,7 @@ impl<T: IntervalBound> Interval<T> {
     pub fn from_range_bounds<B: RangeBounds<T>>(bounds: B) -> Result<Self, IntervalSetError> {
         let start = match bounds.start_bound() {
             Bound::Included(start) => *start,
-            Bound::Excluded(start) => start.step_down().ok_or(IntervalSetError::InvalidInterval)?,
+            Bound::Excluded(start) => start.step_up().ok_or(IntervalSetError::InvalidInterval)?,
             _ => return Err(IntervalSetError::InvalidInterval),
         };
 
